@@ -170,6 +170,13 @@ pub enum Mode {
     Replay(Vec<(PathBuf, ReplayFile)>),
 }
 
+/// Outcome of one byte-level fuzz input: the campaign whose case type can replay it, the case, and the verdict.
+pub struct FuzzOutcome {
+    pub sub: String,
+    pub case: Value,
+    pub result: CaseResult,
+}
+
 pub struct Violation {
     pub sub: String,
     pub signature: String,
@@ -779,8 +786,13 @@ fn merge(into: &mut SubStats, from: SubStats) {
 }
 
 pub fn load_all_known() -> Vec<KnownFinding> {
-    let path = Path::new(VERIF_ROOT).join("known_findings.json");
-    std::fs::read_to_string(&path).ok().and_then(|t| serde_json::from_str(&t).ok()).unwrap_or_default()
+    // the file is never written at run time: read it once per process
+    static ALL: OnceLock<Vec<KnownFinding>> = OnceLock::new();
+    ALL.get_or_init(|| {
+        let path = Path::new(VERIF_ROOT).join("known_findings.json");
+        std::fs::read_to_string(&path).ok().and_then(|t| serde_json::from_str(&t).ok()).unwrap_or_default()
+    })
+    .clone()
 }
 
 pub fn load_known(prop: &str) -> Vec<KnownFinding> {
@@ -916,6 +928,13 @@ pub fn drive(prop: &str, tier: Tier, seed: u64, single_replay: Option<PathBuf>, 
             return 2;
         }
     }
+    let want_fuzz = tier == Tier::Thorough || std::env::var("VERIF_FUZZ").is_ok();
+    if want_fuzz && violation_lines.is_empty() && ctx.violations.is_empty() && FUZZABLE.contains(&prop) && std::env::var("VERIF_NO_FUZZ").is_err() {
+        let (_lines, inconclusive) = fuzz_stage(&mut ctx, run);
+        if inconclusive {
+            exit = 2;
+        }
+    }
     for v in &ctx.violations {
         violation_lines.push(format!("VIOLATION property={prop} replay={}", v.replay_path.display()));
     }
@@ -1020,3 +1039,243 @@ pub fn fill_bytes(seed: u64, len: usize) -> Vec<u8> {
 
 #[allow(dead_code)]
 fn _assert_value_tree<T: ValueTree>() {}
+
+// -------------------------------------------------------------------------------------------------
+// byte-level, coverage-guided fuzzing of the same generators and oracles (libFuzzer, thorough tier)
+
+/// Properties whose input domain is a byte string: these have a raw-bytes entry (`props::fuzz_bytes`) and a libFuzzer target.
+pub const FUZZABLE: [&str; 2] = ["C18", "C19"];
+
+/// Byte-level entry of a property: judges one input with the oracle of the campaign it names.
+pub type FuzzFn = fn(&[u8]) -> Option<FuzzOutcome>;
+
+/// Judge one fuzz input (panics inside the property code become failures, as in the campaigns).
+pub fn fuzz_eval(prop: &str, _run: PropFn, data: &[u8]) -> Option<FuzzOutcome> {
+    install_panic_hook();
+    let f = crate::props::fuzz_bytes(prop)?;
+    f(data)
+}
+
+/// Entry point of the libFuzzer targets: aborts (so that libFuzzer keeps the input) on a violation that is neither
+/// harness trouble nor a listed known finding. With VERIF_FUZZ_SUB=<n> the process fuzzes one decoder / conversion only
+/// (the selector byte is supplied here instead of by the input), which keeps each job's corpus focused.
+pub fn fuzz_entry(prop: &str, run: PropFn, data: &[u8]) {
+    static SUB: OnceLock<Option<u8>> = OnceLock::new();
+    let sub = SUB.get_or_init(|| std::env::var("VERIF_FUZZ_SUB").ok().and_then(|v| v.parse().ok()));
+    let owned;
+    let data = match sub {
+        Some(b) => {
+            let mut v = Vec::with_capacity(data.len() + 1);
+            v.push(*b);
+            v.extend_from_slice(data);
+            owned = v;
+            &owned[..]
+        }
+        None => data,
+    };
+    if let Some(FuzzOutcome { sub, result: Err(fail), .. }) = fuzz_eval(prop, run, data) {
+        if fail.signature.contains("/harness-") {
+            return;
+        }
+        if load_all_known().iter().any(|k| k.status == "known" && k.signature == fail.signature) {
+            return;
+        }
+        eprintln!("fuzz violation in {prop}/{sub}: [{}] {}", fail.signature, fail.message);
+        std::process::abort();
+    }
+}
+
+fn fuzz_runs_per_job(_prop: &str) -> u64 {
+    400_000
+}
+
+/// Thorough tier: build the libFuzzer target of this property, run 16 independent processes with a fixed number of runs
+/// each, turn crashes into replay files, and account the final corpora with the property's own non-triviality rule.
+/// Returns violation lines and whether the stage was inconclusive.
+fn fuzz_stage(ctx: &mut Ctx, run: PropFn) -> (Vec<String>, bool) {
+    let prop = ctx.prop.clone();
+    let target = prop.to_lowercase();
+    let fuzz_dir = Path::new(VERIF_ROOT).join("harness").join("fuzz");
+    let mut lines = Vec::new();
+    let skipped = |ctx: &mut Ctx, why: String| {
+        eprintln!("note: libFuzzer stage skipped: {why}");
+        ctx.extra.insert("libfuzzer".into(), json!({"skipped": why}));
+    };
+    if !fuzz_dir.join("Cargo.toml").exists() {
+        skipped(ctx, "no /verif/harness/fuzz crate".into());
+        return (lines, false);
+    }
+    let build = std::process::Command::new("cargo")
+        .args(["+nightly", "fuzz", "build", &target])
+        .current_dir(Path::new(VERIF_ROOT).join("harness"))
+        .env("CARGO_NET_OFFLINE", "true")
+        .output();
+    match build {
+        Ok(o) if o.status.success() => {}
+        Ok(o) => {
+            let _ = std::fs::write(fuzz_dir.join("build.log"), &o.stderr);
+            skipped(ctx, format!("cargo +nightly fuzz build {target} failed (see /verif/harness/fuzz/build.log)"));
+            return (lines, false);
+        }
+        Err(e) => {
+            skipped(ctx, format!("cannot start cargo: {e}"));
+            return (lines, false);
+        }
+    }
+    let bin = fuzz_dir.join("target/x86_64-unknown-linux-gnu/release").join(&target);
+    if !bin.exists() {
+        skipped(ctx, format!("{} not found after the build", bin.display()));
+        return (lines, false);
+    }
+    let work = fuzz_dir.join("work").join(format!("{prop}-{}", ctx.seed));
+    let _ = std::fs::remove_dir_all(&work);
+    let jobs: usize = std::env::var("VERIF_FUZZ_JOBS").ok().and_then(|v| v.parse().ok()).unwrap_or(16);
+    let runs: u64 = std::env::var("VERIF_FUZZ_RUNS").ok().and_then(|v| v.parse().ok()).unwrap_or_else(|| fuzz_runs_per_job(&prop));
+    let mut children = Vec::new();
+    let n_subs = crate::props::fuzz_subs(&prop).max(1);
+    for j in 0..jobs {
+        let dir = work.join(format!("job{j}"));
+        let corpus = dir.join("corpus");
+        let _ = std::fs::create_dir_all(&corpus);
+        // each job fuzzes one decoder / conversion (round robin), so that its corpus stays focused
+        let sub = (j % n_subs) as u8;
+        // starting corpus: byte strings of several lengths derived from the seed (libFuzzer grows lengths slowly from nothing)
+        // plus the valid encodings of this job's decoder
+        let mut r = SplitMix(mix(mix(ctx.seed, fnv(&prop)), j as u64));
+        for (k, len) in [1usize, 8, 24, 64, 160, 400, 1000, 2000].iter().enumerate() {
+            let mut b = vec![0u8; *len];
+            for x in b.iter_mut() {
+                *x = r.next() as u8;
+            }
+            let _ = std::fs::write(corpus.join(format!("seed{k}")), b);
+        }
+        for (k, b) in crate::props::fuzz_seed_corpus(&prop).into_iter().enumerate() {
+            if !b.is_empty() && (b[0] as usize % n_subs) as u8 == sub {
+                let _ = std::fs::write(corpus.join(format!("valid{k}")), &b[1..]);
+            }
+        }
+        let log = std::fs::File::create(dir.join("log.txt")).ok();
+        let mut cmd = std::process::Command::new(&bin);
+        cmd.arg(&corpus)
+            .arg(format!("-runs={runs}"))
+            .arg(format!("-seed={}", (mix(ctx.seed, j as u64) % 0x7fff_ffff) + 1))
+            .arg("-max_len=2048")
+            .arg("-len_control=0")
+            .arg("-timeout=60")
+            .arg("-rss_limit_mb=4096")
+            .arg("-print_final_stats=1")
+            .arg(format!("-artifact_prefix={}/", dir.display()))
+            .env("VERIF_OUT", &dir)
+            .env("VERIF_FUZZ_SUB", sub.to_string())
+            .stdout(std::process::Stdio::null());
+        match log {
+            Some(f) => {
+                cmd.stderr(f);
+            }
+            None => {
+                cmd.stderr(std::process::Stdio::null());
+            }
+        }
+        match cmd.spawn() {
+            Ok(c) => children.push((j, c)),
+            Err(e) => {
+                skipped(ctx, format!("cannot start the fuzz target: {e}"));
+                return (lines, false);
+            }
+        }
+    }
+    for (_, c) in children.iter_mut() {
+        let _ = c.wait();
+    }
+    // collect
+    let mut executed = 0u64;
+    let mut artifacts: Vec<(PathBuf, u8)> = Vec::new();
+    let mut corpus_files: Vec<(PathBuf, u8)> = Vec::new();
+    for j in 0..jobs {
+        let dir = work.join(format!("job{j}"));
+        if let Ok(t) = std::fs::read_to_string(dir.join("log.txt")) {
+            for l in t.lines() {
+                if let Some(v) = l.strip_prefix("stat::number_of_executed_units:") {
+                    executed += v.trim().parse::<u64>().unwrap_or(0);
+                }
+            }
+        }
+        if let Ok(rd) = std::fs::read_dir(&dir) {
+            for e in rd.flatten() {
+                let name = e.file_name().to_string_lossy().to_string();
+                if name.starts_with("crash-") || name.starts_with("timeout-") || name.starts_with("oom-") || name.starts_with("leak-") {
+                    artifacts.push((e.path(), (j % n_subs) as u8));
+                }
+            }
+        }
+        if let Ok(rd) = std::fs::read_dir(dir.join("corpus")) {
+            for e in rd.flatten() {
+                corpus_files.push((e.path(), (j % n_subs) as u8));
+            }
+        }
+    }
+    corpus_files.sort();
+    let mut inconclusive = false;
+    // crashes: re-judge in this (non-sanitised) process to obtain the case and the signature
+    let mut seen_sigs: BTreeSet<String> = BTreeSet::new();
+    for (a, sub) in &artifacts {
+        let name = a.file_name().unwrap().to_string_lossy().to_string();
+        let mut data = vec![*sub];
+        data.extend(std::fs::read(a).unwrap_or_default());
+        if !name.starts_with("crash-") {
+            eprintln!("INCONCLUSIVE: libFuzzer reported {name} (slow or memory-hungry input, not a verdict): {}", a.display());
+            inconclusive = true;
+            continue;
+        }
+        match fuzz_eval(&prop, run, &data) {
+            Some(FuzzOutcome { sub, case, result: Err(fail) }) if !fail.signature.contains("/harness-") => {
+                if ctx.is_known(&fail.signature) {
+                    *ctx.known_hits.entry(fail.signature.clone()).or_default() += 1;
+                } else if seen_sigs.insert(fail.signature.clone()) {
+                    eprintln!("violation in {prop}/{sub} (libFuzzer): [{}] {}", fail.signature, fail.message);
+                    ctx.record_violation(&sub, &case, fail);
+                }
+            }
+            _ => {
+                eprintln!("INCONCLUSIVE: libFuzzer crash does not reproduce outside the sanitised build: {}", a.display());
+                inconclusive = true;
+            }
+        }
+    }
+    for v in &ctx.violations {
+        let l = format!("VIOLATION property={prop} replay={}", v.replay_path.display());
+        if !lines.contains(&l) {
+            lines.push(l);
+        }
+    }
+    // account the final corpora (inputs that reached new coverage) with the property's own non-triviality rule
+    let mut st = SubStats::default();
+    let mut rejected = 0u64;
+    for (f, sub) in corpus_files.iter().take(30_000) {
+        let mut data = vec![*sub];
+        data.extend(std::fs::read(f).unwrap_or_default());
+        match fuzz_eval(&prop, run, &data) {
+            Some(FuzzOutcome { case, result: Ok(ok), .. }) => account(&mut st, &case, &ok),
+            Some(_) => {}
+            None => rejected += 1,
+        }
+    }
+    let corpus_cases = st.evaluations;
+    st.evaluations = executed.max(corpus_cases);
+    ctx.extra.insert(
+        "libfuzzer".into(),
+        json!({
+            "jobs": jobs, "runs_per_job": runs, "executed_units": executed, "corpus_inputs": corpus_files.len(), "corpus_inputs_generating_a_case": corpus_cases,
+            "corpus_inputs_rejected_by_generator": rejected, "artifacts": artifacts.iter().map(|a| a.0.display().to_string()).collect::<Vec<_>>(),
+            "note": "each job fuzzes one decoder / conversion (round robin over jobs); an input is that decoder's raw input; the oracle is the one of the campaign named in the case; distinct_nontrivial of this stage counts corpus inputs (those that reached new coverage) whose case is non-trivial by the rule above"
+        }),
+    );
+    if !ctx.subs.contains_key("libfuzzer") {
+        ctx.sub_order.push("libfuzzer".to_string());
+    }
+    ctx.subs.insert("libfuzzer".to_string(), st);
+    if artifacts.is_empty() {
+        let _ = std::fs::remove_dir_all(&work);
+    }
+    (lines, inconclusive)
+}
